@@ -2,7 +2,7 @@
 from __future__ import annotations
 
 
-EXPLANATION = '(R1/R2) reader.initialize histories for every reader class (selected with files -> switched off -> selected without files): initialised exactly when selected and present, the AMR reader drops the cpu list of an earlier load; descriptor_to_variables rebuilds every record (no pieces of an earlier load); (R3) two consecutive loads on ONE Loader object (different selection and cpu list): the second is unaffected by the first (selection, level cap, counters, pieces, output objects); (R4) offsets zeroed and bytes replaced before every header of every file; (R5) the sink group is parsed anew on every load. (R6) the Hilbert pre-selection folded three times in one process: axes without a predicate span the whole box every time (module-level objects persist across the calls). (R7) predicates are those of this call; (R8) memoised functions read only their arguments. (R9) RamsesDataset.load folded over histories of calls returning different variable sets for the same group: a load replaces the groups it produces, nothing of the replaced group survives.'
+EXPLANATION = '(R1/R2) reader.initialize histories for every reader class (selected with files -> switched off -> selected without files): initialised exactly when selected and present, the AMR reader drops the cpu list of an earlier load; descriptor_to_variables rebuilds every record (no pieces of an earlier load); (R3) two consecutive loads on ONE Loader object (different selection and cpu list): the second is unaffected by the first (selection, level cap, counters, pieces, output objects); (R4) offsets zeroed and bytes replaced before every header of every file; (R5) the sink group is parsed anew on every load. (R6) the Hilbert pre-selection folded three times in one process: axes without a predicate span the whole box every time (module-level objects persist across the calls). (R7) predicates are those of this call; (R8) memoised functions read only their arguments. (R9) RamsesDataset.load folded over histories of calls returning different variable sets for the same group: a load replaces the groups it produces, nothing of the replaced group survives. (R10) the derived-variable hook leaves every loaded variable untouched (shared with C01.R11).'
 NOT_DECIDED = 'state kept by numba/matplotlib; file-system races'
 TRUSTED = ('CPython ast', 'the interpreter sa/models.py (ModelEval) and its library models')
 TECHNIQUE = 'static analysis: history folding (sequences of calls on one object) of the loader and readers over recording models'
